@@ -57,7 +57,7 @@ def run(ctx):
                 continue
             cfg = enga.impl_config(m)
             pts = [gen_spec.gen_pars(rng, cfg['init'], cfg['bounds'], cfg['par_names']) for _ in range(npts)]
-            merr, res = enga.model_call(lean, spec, st, [{'q': 'config'}] + [{'q': 'expected', 'pars': fl(p)} for p in pts])
+            merr, res = enga.model_call(lean, spec, st, [{'q': 'config'}] + [{'q': 'expected', 'pars': fl(p), **({'decl': True} if k == 0 else {})} for k, p in enumerate(pts)])
             ctx.count()
             ctx.tally('n_channels', len(cfg['channels'])); ctx.tally('n_samples', len(cfg['samples']))
             ctx.tally('interp', f'h{histo}/n{norm}'); ctx.tally('clip', f's={clip_s} b={clip_b}')
@@ -65,7 +65,13 @@ def run(ctx):
             if merr is not None:
                 ctx.disagree('build', {'spec': spec, 'settings': st}, merr, None, 'model rejects, implementation accepts')
                 continue
-            mc = enga.model_config(res[0])
+            wf = res[0]['wf']
+            for k, v in wf.items():
+                if not v and not (k == 'clipSampleNonPos' and clip_s is not None and clip_s > 0):
+                    ctx.disagree('wf-hypothesis', {'spec': spec, 'settings': st}, {k: v}, True,
+                                 'a generated well-formed spec does not satisfy a hypothesis of C01_expected_eq_formula')
+            ctx.tally('theorem_hypotheses_hold', all(wf.values()))
+            mc = enga.model_config(res[0]); mc.pop('wf', None)
             for k in ('channels', 'samples', 'modifiers', 'channel_nbins', 'channel_slices', 'par_order', 'par_slices', 'npars', 'nmaindata'):
                 if mc[k] != cfg[k]:
                     ctx.disagree(f'config.{k}', {'spec': spec}, mc[k], cfg[k])
@@ -115,6 +121,10 @@ def eval_case(ctx, pyhf, c, bk, prec, rt, at):
             maxdisc = max(maxdisc, float(np.max(np.abs(act - mact) / np.maximum(np.abs(mact), 1e-300))))
         if bys.shape != mbys.shape or not np.allclose(bys, mbys, rtol=rt, atol=at):
             ctx.disagree('expected_by_sample', inp, mbys.tolist(), bys.tolist())
+        if bk == 'numpy' and prec == '64b' and c['res'][0]['wf']['clipSampleNonPos'] and rr['declarative'] is not None:
+            md = np.asarray(unfl(rr['declarative']))
+            if act.shape != md.shape or not np.allclose(act, md, rtol=1e-11, atol=1e-11):
+                ctx.disagree('expected_actualdata/declarative-model-D', inp, md.tolist(), act.tolist())
         mfull = np.concatenate([mact, maux])
         if full.shape != mfull.shape or not np.allclose(full, mfull, rtol=rt, atol=at):
             ctx.disagree('expected_data', inp, mfull.tolist(), full.tolist())
